@@ -27,12 +27,12 @@ open Occa Occa.Dtype
 
 /-- The repairs the model follows are present in the source the tables were generated from:
     isCyclic guards the division (F13), leaves are compared structurally (F15), the parser marks
-    every @kernel's metadata initialized (F12) as kernelMetadata_t::fromJson does, and the JSON
-    codec is the one of C11 (F14, F15b). -/
+    every @kernel's metadata initialized (F12) as kernelMetadata_t::fromJson does, the JSON codec is
+    the one of C11 (F14, F15b), and an array of unknown extent flattens one element (F13b). -/
 theorem C10_code_shape :
     Gen.cyclicGuard = true ∧ Gen.leafStructural = true ∧ Gen.parserMarksInitialized = true ∧
     Gen.fromJsonMarksInitialized = true ∧ Gen.enumWritesBytes = true ∧ Gen.fromJsonRestoresBytes = true ∧
-    Gen.builtinByIdentity = true := by
+    Gen.builtinByIdentity = true ∧ Gen.unknownExtentFlattensOne = true := by
   decide
 
 /-! ### (a) accept exactly the compatible lists -/
@@ -115,7 +115,7 @@ theorem C10_fresh_eq_cached (m : KernelMeta) (tv : Bool) (args : List Arg) (hw :
     (hi : m.initialized = true) :
     ∃ m', KernelMeta.fromJson m.depth m.toJson = .ok m' ∧ validate m' tv args = validate m tv args := by
   refine ⟨m.norm, KernelMeta.fromJson_toJson C10_code_shape.2.2.2.2.1 C10_code_shape.2.2.2.2.2.1
-    C10_code_shape.2.2.2.2.2.2 C10_code_shape.2.2.2.1 m m.depth hw (Nat.le_refl _), ?_⟩
+    C10_code_shape.2.2.2.2.2.2.1 C10_code_shape.2.2.2.1 m m.depth hw (Nat.le_refl _), ?_⟩
   unfold validate
   simp [KernelMeta.norm, hi, validateArgs_norm]
 
